@@ -49,29 +49,37 @@ fn nest(open: &str, close: &str, depth: usize, core: &str) -> String {
     format!("{}{}{}", open.repeat(depth), core, close.repeat(depth))
 }
 
-fn adversarial_lark() -> BoxedStrategy<String> {
-    let depth = prop_oneof![Just(10usize), Just(60), Just(200), Just(1000), Just(5000), Just(40000)];
-    let big = prop_oneof![Just("1000"), Just("65536"), Just("1000000"), Just("4294967295"), Just("4294967296"), Just("2147483648"), Just("99999999999999999999"), Just("0"), Just("-1")];
+/// deep nesting in every place where the Lark front end recurses
+fn nesting_lark() -> BoxedStrategy<String> {
+    let depth = prop_oneof![Just(10usize), Just(60), Just(200), Just(1000), Just(2500), Just(5000), Just(40000)];
     prop_oneof![
         depth.clone().prop_map(|d| format!("start: {}\n", nest("(", ")", d, "\"a\""))),
         depth.clone().prop_map(|d| format!("start: {}\n", nest("[", "]", d, "\"a\""))),
         depth.clone().prop_map(|d| format!("start: T\nT: {}\n", nest("~(", ")", d.min(2000), "\"a\""))),
         depth.clone().prop_map(|d| format!("start: /{}/\n", nest("(", ")", d.min(3000), "a"))),
         depth.clone().prop_map(|d| format!("start: %json {}\n", nest("{\"allOf\":[", "]}", d.min(3000), "{\"type\":\"integer\"}"))),
-        depth.clone().prop_map(|d| format!("start: {}\n", nest("%lark { start: ", " }", d.min(400), "\"a\""))),
+        depth.clone().prop_map(|d| format!("start: {}\n", nest("%lark { start: ", " }", d, "\"a\""))),
         // nesting in places other than ( ) [ ]: rule-template arguments, parameter conditions, parameter expressions
         depth.clone().prop_map(|d| format!("start: {}\n", nest("a{", "}", d, "b"))),
         depth.clone().prop_map(|d| format!("start: p::0\np::_: \"a\" %if {} | \"b\"\n", nest("not(", ")", d, "bit_set(0)"))),
         depth.clone().prop_map(|d| format!("start: p::0\np::_: \"a\" %if {} | \"b\"\n", nest("and(bit_set(1), ", ")", d, "bit_set(0)"))),
         depth.prop_map(|d| format!("start: p::{}\np::_: \"a\" | \"b\"\n", nest("incr(", ")", d.min(5000), "_"))),
-        (big.clone(), big.clone()).prop_map(|(a, b)| format!("start: \"a\"{{{},{}}}\n", a, b)),
-        (big.clone(), big.clone()).prop_map(|(a, b)| format!("start: x{{{},{}}}\nx: \"a\" | \"b\" x\n", a, b)),
-        (big.clone(), big.clone()).prop_map(|(a, b)| format!("start: /a{{{},{}}}/\n", a, b)),
-        (big.clone(), big.clone()).prop_map(|(a, b)| format!("start: /(a{{{}}}){{{}}}/\n", a, b)),
-        (big.clone(), big.clone()).prop_map(|(a, b)| format!("start: \"a\"~{} .. {}\n", a, b)),
-        big.clone().prop_map(|a| format!("start: <[{}]> | <[0-{}]> | <[^{}]>\n", a, a, a)),
+    ]
+    .boxed()
+}
+
+fn adversarial_lark() -> BoxedStrategy<String> {
+    let big = prop_oneof![Just("1000"), Just("65536"), Just("1000000"), Just("4294967295"), Just("4294967296"), Just("2147483648"), Just("99999999999999999999"), Just("0"), Just("-1")];
+    prop_oneof![
+        4 => nesting_lark(),
+        1 => (big.clone(), big.clone()).prop_map(|(a, b)| format!("start: \"a\"{{{},{}}}\n", a, b)),
+        1 => (big.clone(), big.clone()).prop_map(|(a, b)| format!("start: x{{{},{}}}\nx: \"a\" | \"b\" x\n", a, b)),
+        1 => (big.clone(), big.clone()).prop_map(|(a, b)| format!("start: /a{{{},{}}}/\n", a, b)),
+        1 => (big.clone(), big.clone()).prop_map(|(a, b)| format!("start: /(a{{{}}}){{{}}}/\n", a, b)),
+        1 => (big.clone(), big.clone()).prop_map(|(a, b)| format!("start: \"a\"~{} .. {}\n", a, b)),
+        1 => big.clone().prop_map(|a| format!("start: <[{}]> | <[0-{}]> | <[^{}]>\n", a, a, a)),
         // token ids at the edge of the vocabulary (the check's vocabularies have 257 and 289 tokens)
-        (prop_oneof![Just(255u32), Just(256), Just(257), Just(258), Just(287), Just(288), Just(289), Just(290)], 0u32..4, 0u8..6).prop_map(|(n, w, shape)| {
+        1 => (prop_oneof![Just(255u32), Just(256), Just(257), Just(258), Just(287), Just(288), Just(289), Just(290)], 0u32..4, 0u8..6).prop_map(|(n, w, shape)| {
             let lo = n.saturating_sub(w);
             match shape {
                 0 => format!("start: <[{}]>\n", n),
@@ -82,12 +90,12 @@ fn adversarial_lark() -> BoxedStrategy<String> {
                 _ => format!("start: <[0-3,{}-{}]> <[^0-{}]>\n", lo, n, lo),
             }
         }),
-        big.clone().prop_map(|a| format!("start: p::{}\np::_: \"a\" p::incr([0:{}]) %if lt([0:64], {}) | \"\"\n", a, a, a)),
-        big.clone().prop_map(|a| format!("start: p::0\np::_: \"a\" p::set_bit({}) %if bit_clear({}) | \"\"\n", a, a)),
-        big.clone().prop_map(|a| format!("start: x\nx[max_tokens={}]: /a*/\n", a)),
-        big.prop_map(|a| format!("start: \"{}\"\n", "ab".repeat(a.parse::<usize>().unwrap_or(7).min(300000)))),
+        1 => big.clone().prop_map(|a| format!("start: p::{}\np::_: \"a\" p::incr([0:{}]) %if lt([0:64], {}) | \"\"\n", a, a, a)),
+        1 => big.clone().prop_map(|a| format!("start: p::0\np::_: \"a\" p::set_bit({}) %if bit_clear({}) | \"\"\n", a, a)),
+        1 => big.clone().prop_map(|a| format!("start: x\nx[max_tokens={}]: /a*/\n", a)),
+        1 => big.prop_map(|a| format!("start: \"{}\"\n", "ab".repeat(a.parse::<usize>().unwrap_or(7).min(300000)))),
         // a long chain of rule (terminal) references: flat text, deep compilation
-        prop_oneof![Just(100usize), Just(1000), Just(20000)].prop_map(|d| {
+        1 => prop_oneof![Just(100usize), Just(1000), Just(20000)].prop_map(|d| {
             let mut t = String::from("start: r0\n");
             for i in 0..d {
                 t.push_str(&format!("r{}: r{}\n", i, i + 1));
@@ -95,7 +103,7 @@ fn adversarial_lark() -> BoxedStrategy<String> {
             t.push_str(&format!("r{}: \"a\"\n", d));
             t
         }),
-        prop_oneof![Just(100usize), Just(1000), Just(20000)].prop_map(|d| {
+        1 => prop_oneof![Just(100usize), Just(1000), Just(20000)].prop_map(|d| {
             let mut t = String::from("start: T0\n");
             for i in 0..d {
                 t.push_str(&format!("T{}: T{} \"b\"\n", i, i + 1));
@@ -103,20 +111,20 @@ fn adversarial_lark() -> BoxedStrategy<String> {
             t.push_str(&format!("T{}: \"a\"\n", d));
             t
         }),
-        Just("start: start\n".to_string()),
-        Just("start: a\na: b\nb: a | a a\n".to_string()),
-        Just("start: A\nA: B\nB: A\n".to_string()),
-        Just("start: x*\nx: \"\" | x x\n".to_string()),
-        Just("start: (\"a\"?)*\n".to_string()),
-        Just("start: /(a*)*b/\n".to_string()),
-        Just("start: /(a|aa)+$/\n".to_string()),
-        Just("start: /\\p{L}{1,300}\\p{N}{1,300}/\n".to_string()),
-        Just("start: /(?=a)b/ | /a(?!b)/ | /\\bword\\b/\n".to_string()),
-        Just("%ignore /x*/\n%ignore //\nstart: \"a\"\n".to_string()),
-        Just("start: @missing | @0 | <|nosuchtoken|>\n".to_string()),
-        Just("%llguidance {\"allow_invalid_utf8\": true, \"no_forcing\": 17}\nstart: /\\xff+/\n".to_string()),
-        Just("start: \"a\" -> b\n%import common.INT\n%declare X\nstart2{x}: x\n".to_string()),
-        Just("start: %regex { \"substring_chars\": \"\" } | %regex {\"substring_words\": 5}\n".to_string()),
+        1 => Just("start: start\n".to_string()),
+        1 => Just("start: a\na: b\nb: a | a a\n".to_string()),
+        1 => Just("start: A\nA: B\nB: A\n".to_string()),
+        1 => Just("start: x*\nx: \"\" | x x\n".to_string()),
+        1 => Just("start: (\"a\"?)*\n".to_string()),
+        1 => Just("start: /(a*)*b/\n".to_string()),
+        1 => Just("start: /(a|aa)+$/\n".to_string()),
+        1 => Just("start: /\\p{L}{1,300}\\p{N}{1,300}/\n".to_string()),
+        1 => Just("start: /(?=a)b/ | /a(?!b)/ | /\\bword\\b/\n".to_string()),
+        1 => Just("%ignore /x*/\n%ignore //\nstart: \"a\"\n".to_string()),
+        1 => Just("start: @missing | @0 | <|nosuchtoken|>\n".to_string()),
+        1 => Just("%llguidance {\"allow_invalid_utf8\": true, \"no_forcing\": 17}\nstart: /\\xff+/\n".to_string()),
+        1 => Just("start: \"a\" -> b\n%import common.INT\n%declare X\nstart2{x}: x\n".to_string()),
+        1 => Just("start: %regex { \"substring_chars\": \"\" } | %regex {\"substring_words\": 5}\n".to_string()),
     ]
     .boxed()
 }
@@ -250,6 +258,7 @@ fn input_strategy() -> BoxedStrategy<Input> {
     };
     prop_oneof![
         3 => adversarial_lark().prop_map(Input::Lark),
+        1 => nesting_lark().prop_map(Input::Lark),
         3 => adversarial_schema().prop_map(Input::Json),
         1 => adversarial_regex().prop_map(Input::Regex),
         2 => valid.clone().prop_map(from_spec),
